@@ -99,7 +99,10 @@ def project(pid, pseed, acc):
     rnd = random.Random(pseed)
     names = BIG_NAMES if rnd.random() < 0.5 else trees.NAMES
     big = rnd.random() < 0.25
-    if big:
+    if big and rnd.random() < 0.2:
+        spec = _extreme_project(rnd)
+        acc.count("combo_extreme_projects")
+    elif big:
         spec = _big_project(rnd, names)
     else:
         spec = trees.random_project(rnd, depth=rnd.choice([2, 3, 4]), imports_per_file=(0, 3), externals=0.25, name_imports=0.25, dangling=0.05, names=names)
@@ -198,6 +201,29 @@ def project(pid, pseed, acc):
                 HUB.violation("C10", "external:present-although-excluded", "modules outside module_path in a scan with external libraries excluded", {"options": case["options"], "mp": mp_rel, "nodes": sorted(outside)})
     finally:
         trees.remove_tree(root)
+
+
+def _extreme_project(rnd):
+    """Magnitudes: one directory with 150-400 files (numbered: m2 / m10 / m100), a package chain 25-45 levels deep, a
+    path component of 200 characters, one module imported by everybody, one file with 300 import statements."""
+    files = {"__init__.py": "", "hub.py": "value = 1\n"}
+    n = rnd.randint(150, 400)
+    for i in range(n):
+        files[f"wide/m{i}.py"] = "import proj.hub\n" + (f"import proj.wide.m{rnd.randrange(n)}\n" if rnd.random() < 0.5 else "")
+    files["wide/__init__.py"] = ""
+    depth = rnd.randint(25, 45)
+    chain = "/".join(f"d{k}" for k in range(depth))
+    for k in range(1, depth + 1):
+        files["/".join(f"d{j}" for j in range(k)) + "/__init__.py"] = ""
+    deep_mod = "proj." + ".".join(f"d{k}" for k in range(depth))
+    files[chain + "/leaf.py"] = "import proj.hub\nfrom " + "." * depth + " import hub\nimport proj.wide.m1\n"
+    files["top.py"] = f"import {deep_mod}.leaf\nfrom {deep_mod} import leaf\n"
+    long = "p" + "x" * 199
+    files[f"{long}/__init__.py"] = ""
+    files[f"{long}/inner.py"] = "from . import sibling\nimport proj.top\n"
+    files[f"{long}/sibling.py"] = ""
+    files["many_imports.py"] = "\n".join(f"import proj.wide.m{i}" for i in range(min(n, 300))) + "\n"
+    return {"root": "proj", "dirs": [], "files": files}
 
 
 def _big_project(rnd, names):
